@@ -28,6 +28,36 @@ def keys : List (κ × ν) → List κ
   | [] => []
   | (k, _) :: r => k :: (keys r).filter (fun x => !(x == k))
 
+/-- first occurrences, in order -/
+def dedup : List κ → List κ
+  | [] => []
+  | k :: r => k :: (dedup r).filter (fun x => !(x == k))
+
+theorem dedup_nodup [LawfulBEq κ] (l : List κ) : (dedup l).Nodup := by
+  induction l with
+  | nil => simp [dedup]
+  | cons k r ih =>
+    simp only [dedup, List.nodup_cons]
+    refine ⟨?_, ih.sublist List.filter_sublist⟩
+    intro h
+    have := (List.mem_filter.mp h).2
+    simp at this
+
+theorem mem_dedup [LawfulBEq κ] (l : List κ) (x : κ) : x ∈ dedup l ↔ x ∈ l := by
+  induction l with
+  | nil => simp [dedup]
+  | cons k r ih =>
+    simp only [dedup, List.mem_cons, List.mem_filter, ih]
+    constructor
+    · rintro (h | ⟨h, _⟩)
+      · exact Or.inl h
+      · exact Or.inr h
+    · rintro (h | h)
+      · exact Or.inl h
+      · by_cases hx : x = k
+        · exact Or.inl hx
+        · exact Or.inr ⟨h, by simpa using hx⟩
+
 /-- the map's current bindings (each key once, with its final value), in first-insertion order -/
 def entries (m : List (κ × ν)) : List (κ × ν) :=
   (keys m).filterMap fun k => (get? m k).map fun v => (k, v)
